@@ -181,13 +181,17 @@ def install(e, log):
     e.stub(pysodium.crypto_sign_sk_to_seed, sk_to_seed)
     e.stub(pysodium.randombytes, lambda eng, a, k: T('var', f'salt#{len(log)}', n=a[0]))
 
+    def _arg(a, k, i, name):
+        """argument `name` of a library call, passed by keyword or as the i-th positional argument (both spellings are the same call)"""
+        return k[name] if name in k else (a[i] if len(a) > i else None)
+
     def secretbox(eng, a, k):
-        m, n, kk = k.get('msg'), k.get('nonce'), k.get('k')
+        m, n, kk = _arg(a, k, 0, 'msg'), _arg(a, k, 1, 'nonce'), _arg(a, k, 2, 'k')
         log.append(('secretbox', m, n, kk))
         return T('secretbox', m, n if isinstance(n, T) else bytes(n), kk, n=m.n + 16)
 
     def secretbox_open(eng, a, k):
-        c, n, kk = k.get('c'), k.get('nonce'), k.get('k')
+        c, n, kk = _arg(a, k, 0, 'c'), _arg(a, k, 1, 'nonce'), _arg(a, k, 2, 'k')
         log.append(('secretbox_open', c, n, kk))
         n = n if isinstance(n, T) else bytes(n)
         if isinstance(c, T) and c.op == 'secretbox' and c.args[1] == n and same(c.args[2], kk):
@@ -197,8 +201,9 @@ def install(e, log):
     e.stub(pysodium.crypto_secretbox_open, secretbox_open)
 
     def pbkdf2(eng, a, k):
-        log.append(('pbkdf2', k.get('hash_name'), k.get('iterations'), k.get('dklen')))
-        return T('pbkdf2', k.get('hash_name'), k.get('password'), k.get('salt'), k.get('iterations'), k.get('dklen'), n=k.get('dklen'))
+        hn, pw, salt, it, dk = (_arg(a, k, i, nm) for i, nm in enumerate(('hash_name', 'password', 'salt', 'iterations', 'dklen')))
+        log.append(('pbkdf2', hn, it, dk))
+        return T('pbkdf2', hn, pw, salt, it, dk, n=dk)
     e.stub(hashlib.pbkdf2_hmac, pbkdf2)
     e.stub(coincurve.PrivateKey, lambda eng, a, k: (log.append(('sp.PrivateKey', a[0])), _G(public_key=_G(format=_F(lambda e2, a2, k2: T('sp.pk', a[0], n=33)))))[1])
     e.stub(K.bytes_to_int, lambda eng, a, k: T('be_int', a[0]))
